@@ -41,7 +41,9 @@ private:
         break;
       }
     }
-    for (T_PointerTypeUnsigned i = 1; i < counter; i++) {
+    // counter may lie beyond max_val (the limit can shrink when the sandbox is
+    // destroyed and created again with less memory while owners survive)
+    for (T_PointerTypeUnsigned i = 1; i < counter && i <= max_val; i++) {
       if (pointer_map.find(i) == pointer_map.end()) {
         counter = i + 1;
         return (T_PointerType)i;
